@@ -27,6 +27,35 @@ def contains_literals(body):
     return out
 
 
+def code_words(F, b, depth=0, seen=None):
+    """string literals a classification predicate searches for: in its body, in constant tables it reads and in the
+    crate-local helpers it calls (a table passed to a helper counts through the table)"""
+    seen = seen if seen is not None else set()
+    if b is None or "body" not in b or b["path"] in seen or depth > 3:
+        return set()
+    seen.add(b["path"])
+    out = {v for v, _ in contains_literals(b["body"])}
+    for n in walk(b["body"]):
+        if n.get("k") == "def" and n.get("dk") in ("const", "assoc_const", "static"):
+            cb = F.body_by_path.get(n.get("def"))
+            if cb is not None and "body" in cb:
+                for x in walk(cb["body"]):
+                    if x.get("k") == "lit" and x.get("t") == "str" and x.get("v"):
+                        out.add(x["v"])
+        if n.get("k") == "array":
+            for e in n.get("es") or []:
+                v = lit_val(peel(e))
+                if isinstance(v, str) and v:
+                    out.add(v)
+        if n.get("k") in ("call", "mcall"):
+            cal = callee(n)
+            hb = F.body_by_path.get(cal)
+            if hb is not None and not hb.get("exp") and cal.startswith(("messages::", "swift_message::")) \
+                    and hb["name"] not in PREDS:
+                out |= code_words(F, hb, depth + 1, seen)
+    return {w for w in out if w.startswith("/") or len(w) >= 3}
+
+
 def r1(rep, F):
     r = rep.rule("R1", "classification literals: per type the code words searched by has_reject_codes and "
                        "has_return_codes are disjoint; across MT103/202/205 the reject sets are equal and the "
@@ -45,7 +74,7 @@ def r1(rep, F):
     lits = {}
     for p, d in table.items():
         for T, b in d.items():
-            lits[(p, T)] = {v for v, _ in contains_literals(b["body"])}
+            lits[(p, T)] = code_words(F, b)
             r["instances"] += 1
     r["literals"] = {"%s::%s" % (G.short(T), p): sorted(v) for (p, T), v in lits.items()}
     for T in rej:
@@ -86,9 +115,10 @@ def r1(rep, F):
         want = set(table.get(inner, {}).keys())
         down = set()
         for n in walk(b["body"]):
-            if n.get("k") == "mcall" and n.get("m") == "downcast_ref":
+            if n.get("k") in ("mcall", "call"):
                 for g in n.get("ga") or []:
-                    down.add(g)
+                    if g.startswith("messages::"):
+                        down.add(g)
             if n.get("k") in ("call", "mcall") and callee(n).startswith("messages::"):
                 nm = callee(n).rsplit("::", 1)[-1]
                 if nm != inner:
